@@ -23,6 +23,8 @@ type Stim struct {
 	Sel  string `json:"sel,omitempty"`  // last (default) | first
 	Term int    `json:"term,omitempty"` // optional filter (0 = any)
 	Pre  *bool  `json:"pre,omitempty"`  // optional filter on RequestVote.Prevote
+	Idx  int    `json:"idx,omitempty"`  // optional filter on InstallSnapshot.LastIncludedIndex (0 = any)
+	Off0 bool   `json:"off0,omitempty"` // InstallSnapshot: only requests that start at offset 0
 	D    int    `json:"d,omitempty"`    // milliseconds
 	Val  string `json:"val,omitempty"`
 	K    int    `json:"k,omitempty"`     // submit: operation type; armcrash: delta
@@ -122,6 +124,7 @@ type Scenario struct {
 	NoBootstrap  []string              `json:"no_bootstrap,omitempty"`   // voters whose Bootstrap call is left to the program
 	LatencyUS    int                   `json:"latency_us,omitempty"`
 	JitterUS     int                   `json:"jitter_us,omitempty"`
+	MemberTOMS   int                   `json:"member_to_ms,omitempty"` // spec replay: time-out of membership calls; virtual time passes before each one so that earlier futures have timed out
 	SnapWindow   bool                  `json:"snap_window,omitempty"` // replay of Raft.tla with Env:SnapWindow: takeSnapshot parks after publication
 	TickMS       int                   `json:"tick_ms,omitempty"`     // timed replay (RaftTimed.tla): virtual time per Tick
 	ETMS         int                   `json:"et_ms,omitempty"`       // election timeout (default 300)
@@ -170,6 +173,12 @@ func (r *Runner) match(s *Stim, phase int) *RPC {
 			}
 		}
 		if s.Pre != nil && (p.Kind != "rv" || p.RV.Prevote != *s.Pre) {
+			continue
+		}
+		if s.Idx != 0 && (p.Kind != "is" || int(p.IS.LastIncludedIndex) != s.Idx) {
+			continue
+		}
+		if s.Off0 && (p.Kind != "is" || p.IS.Offset != 0) {
 			continue
 		}
 		cands = append(cands, p)
@@ -323,6 +332,9 @@ func (r *Runner) do(s Stim) bool {
 		}
 		n.fsm.Release(s.W)
 		c.Settle()
+	case "nolimit":
+		// delayed messages must survive: no overflow drops from here on
+		c.net.maxPerLink = 0
 	case "snapnow":
 		if n == nil {
 			return false
